@@ -100,6 +100,8 @@ func (s *Subscription) delete(ctx context.Context) error {
 	switch {
 	case err != nil:
 		return err
+	case len(res.Results) != 1:
+		return ua.StatusBadUnknownResponse
 	case res.Results[0] == ua.StatusOK:
 		s.itemsMu.Lock()
 		s.items = make(map[uint32]*monitoredItem)
@@ -164,10 +166,18 @@ func (s *Subscription) Monitor(ctx context.Context, ts ua.TimestampsToReturn, it
 		return nil, err
 	}
 
+	// there is one result for every item
+	if len(res.Results) != len(items) {
+		return res, ua.StatusBadUnknownResponse
+	}
+
 	// store monitored items
 	s.itemsMu.Lock()
 	for i, item := range items {
 		result := res.Results[i]
+		if result == nil {
+			continue
+		}
 		s.items[result.MonitoredItemID] = &monitoredItem{
 			req: item,
 			res: result,
@@ -240,15 +250,24 @@ func (s *Subscription) ModifyMonitoredItems(ctx context.Context, ts ua.Timestamp
 		return nil, err
 	}
 
+	// there is one result for every item
+	if len(res.Results) != len(req.ItemsToModify) {
+		return res, ua.StatusBadUnknownResponse
+	}
+
 	// update monitored items
 	s.itemsMu.Lock()
 	for i, res := range res.Results {
-		if res.StatusCode != ua.StatusOK {
+		if res == nil || res.StatusCode != ua.StatusOK {
 			continue
 		}
 
 		id := req.ItemsToModify[i].MonitoredItemID
 		item := s.items[id]
+		if item == nil {
+			// the item is not one of this subscription
+			continue
+		}
 		item.ts = req.TimestampsToReturn
 		item.req.RequestedParameters = req.ItemsToModify[i].RequestedParameters
 		item.res.StatusCode = res.StatusCode
@@ -481,6 +500,9 @@ func (s *Subscription) recreate_monitoredItems(ctx context.Context) error {
 			return err
 		}
 
+		if len(res.Results) != len(items) {
+			return ua.StatusBadUnknownResponse
+		}
 		for _, result := range res.Results {
 			if status := result.StatusCode; status != ua.StatusOK {
 				return status
